@@ -87,6 +87,7 @@ type Exec struct {
 	stats      *Stats
 	oracleSeen map[string]bool
 	nilAbsent  bool // C20: pass absent (nil) byte fields instead of empty ones
+	cancelled  bool       // worlds created by this executor hand out sdk.Contexts whose Go context is already cancelled
 	argSlices  []argSlice // the byte-slice arguments handed to the handler of the current step, with a copy of their content
 }
 
@@ -187,6 +188,7 @@ func (x *Exec) Line(line string) {
 				}
 			}()
 			nw := NewWorld(x.out, x.denom)
+			nw.cancelled = x.cancelled
 			if x.w != nil {
 				// carry ledger balances over
 				it := x.w.ctx().KVStore(x.w.lkey).Iterator(nil, nil)
@@ -425,6 +427,15 @@ func (x *Exec) codec(n, op string, a Args) {
 	case "encburn":
 		m := types.BurnMessage{Version: a.u32("version"), BurnToken: a.hex("token"), MintRecipient: a.hex("recipient"), Amount: a.optInt("amount"), MessageSender: a.hex("sender")}
 		bz, err := m.Bytes()
+		if err != nil {
+			x.emit("I C %s err", n)
+			x.lastClass = "err"
+			return
+		}
+		x.emit("I C %s ok bz=%x", n, bz)
+	case "padtoken":
+		// types.RemoteTokenPadded: the hex spelling of a remote token as the fixed 32-byte burn-token field
+		bz, err := types.RemoteTokenPadded(a.str("s"))
 		if err != nil {
 			x.emit("I C %s err", n)
 			x.lastClass = "err"
